@@ -32,6 +32,12 @@ CHECKS = {
         "trigger the same ECAL sink (and two sinks sharing a global function) on 2-3 workers, each added with wait from its own thread; oracle: "
         "every invocation sees its own event and its own let-local at every probe, the error report of each root is exactly (type, detail, "
         "data) of its own payload, no panic, no happens-before race on any instrumented shared variable"),
+ "C13": dict(engine="engine-A", cat="model_checking", ref="DESIGN.md 4, 7/C13", note=SCHED_NOTE + "; the lexer goroutine of a Parse call is a free-running helper (single-producer/single-consumer pipe private to the call) whose accesses to instrumented variables are attributed to its owner thread for the race check", tech=SCHED_TECH,
+   text="every schedule (preemption bound 1-3) of 17 drivers in which 2-3 threads run parser.Parse / ParseWithRuntime (and Validate+Eval of an "
+        "interpolating string) on texts with if/elif/else, for, map literals, nested maps, a syntax error; scheduling points are the accesses to "
+        "the mutable package-level variables of parser/ and interpreter/ that the instrumenter finds in the current tree (listed in the evidence); "
+        "oracle: each concurrent result equals the sequential result, later sequential parses still do, runtime-component ids are pairwise "
+        "distinct, no happens-before race on any instrumented variable, no panic"),
 }
 
 ENGINES = [
